@@ -193,7 +193,7 @@ class Scratch:
         if not os.path.exists(path):
             raise AnchorLost(f"{rel} does not exist")
         stem = re.sub(r"[^A-Za-z0-9_]", "_", os.path.splitext(modfile)[0])
-        line = f'\n#[cfg(kani)] #[path = "{VERIF}/contracts/kani/{modfile}"] mod verif_kani_{stem};\n'
+        line = f'\n#[cfg(kani)] #[path = "{VERIF}/contracts/kani/{modfile}"] pub(crate) mod verif_kani_{stem};\n'
         with open(path, "a") as f:
             f.write(line)
         self.overlay_log.append(f"{rel}: appended `#[cfg(kani)] #[path=contracts/kani/{modfile}] mod verif_kani_{stem};`")
@@ -208,6 +208,14 @@ class Scratch:
         body = body_src[bo:e]
         stmts = []
         for rx in sl["stmts"]:
+            if isinstance(rx, dict):
+                # brace-matched block (e.g. an `if cond { .. }` statement) starting at the unique match of rx["block"]
+                ms = list(re.finditer(rx["block"], body, re.S))
+                if len(ms) != 1:
+                    raise AnchorLost(f"slice block /{rx['block']}/ matched {len(ms)} times in {sl['fn_anchor']}")
+                bo2 = find_body_open(body, ms[0].start())
+                stmts.append(body[ms[0].start():match_brace(body, bo2)])
+                continue
             ms = list(re.finditer(rx, body, re.S))
             if len(ms) != 1:
                 raise AnchorLost(f"slice statement /{rx}/ matched {len(ms)} times in {sl['fn_anchor']}")
